@@ -329,6 +329,7 @@ func corpusPgJSON() []*modSpec {
 		"type Shapes []Shape\ntype ShapeMap map[string]Shape\ntype Box struct {\n\tS Shape\n\tAll Shapes\n\tNamed ShapeMap\n\tLabel string\n}\n\n" +
 		"type IdDrawing int64\n\ntype Drawing struct {\n\tId IdDrawing\n\tMain Box\n\tList Shapes\n\tBy ShapeMap\n\tOne Shape\n}\n"
 	return []*modSpec{
+		mk("pg-string-enum-with-backslash-and-quote", "package models\n\ntype Sep string\n\nconst (\n\tBack Sep = \"\\\\\"\n\tWin Sep = \"C:\\\\dir\"\n\tQuote Sep = \"it's\"\n\tSlash Sep = \"/\"\n)\n\ntype Path struct {\n\tS Sep\n\tAll []Sep\n}\n\ntype IdDoc int64\n\ntype Doc struct {\n\tId IdDoc\n\tP Path\n}\n"),
 		mk("json-column-of-an-imported-plain-struct", "package models\n\nimport \"example.com/org/models/shared\"\n\ntype IdUser int64\n\ntype User struct {\n\tId IdUser\n\tName string\n\tHome shared.Address\n}\n",
 			modFile{"shared/shared.go", "package shared\n\ntype Address struct {\n\tStreet string\n\tCity string `json:\"city\"`\n\tTags []string\n\tGeo Point\n}\n\ntype Point struct{ Lat, Lng float64 }\n"}),
 		mk("json-column-of-an-imported-struct", "package models\n\nimport \"example.com/org/models/shared\"\n\ntype IdUser int64\n\ntype User struct {\n\tId IdUser\n\tName string\n\tHome shared.Address\n\tLast shared.Event\n}\n",
